@@ -38,7 +38,9 @@ def gen_calls(rng):
     return calls
 
 DOCS = ['%TAG ! tag:e.com,2000:\n--- !a 1\n', '--- !a 2\n', '%TAG !! tag:e.com,2000:app/\n--- !!str x\n', '--- !!str y\n', '--- !e!z w\n', '%TAG !e! tag:f.org,1:\n--- !e!z w\n', '--- [!a x, !!int 3]\n', 'a: 1\n', '--- &a [1, *a]\n', '%TAG !e! tag:e.com,2000:\n--- !e!x y\n', '--- !!str x\n', '--- &a x\n', '--- [&a 1, *a]\n...\n', '%YAML 1.1\n--- {k: v}\n', '--- |\n  text\n', "--- 'q'\n...\n", '--- \n- 1\n- 2\n',
-        '--- {<<: {a: 1}, b: 2}\n', '--- !!set {a, b}\n', '--- "x"\n']
+        '--- {<<: {a: 1}, b: 2}\n', '--- !!set {a, b}\n', '--- "x"\n',
+        # roots whose extent is decided by indentation or by what follows: empty and blank-only block scalars, bare markers, open-ended plain scalars
+        '--- |\n', '--- >\n', '--- |\n\n', '--- >-\n\n\n', '--- |+\n\n', '--- |\n  text\n', '--- >\n folded\n text\n', '---\n', '--- plain\n', '--- plain\n  more\n', '--- # comment only\n', '--- &r\n', '--- !!str\n', "--- 'q\n\n  r'\n", '---\nkey: |\n', '---\n- |\n\n- x\n']
 def run(ctx):
     ctx.rule = RULE
     ctx.regen(); ctx.prove()
